@@ -105,6 +105,8 @@ def check_b64(case) -> Outcome:
         root = guarded(5.0, scanner().scan, text, 1)
     except CaseTimeout:
         return o.exclude("slow-scan")
+    except Exception as e:
+        return o.exclude("scan-raised:" + type(e).__name__ + " (C01's business)")
     if acceptable:
         st_, info = locate(root, a, b, "", "encoding.base64", p)
         if st_ == "missing":
@@ -167,6 +169,8 @@ def check_call(case) -> Outcome:
         root = guarded(5.0, scanner().scan, text, 1)
     except CaseTimeout:
         return o.exclude("slow-scan")
+    except Exception as e:
+        return o.exclude("scan-raised:" + type(e).__name__ + " (C01's business)")
     st_, info = locate(root, a, b, typ, obf, val)
     if st_ == "missing":
         return o.violate("call:%s:not-decoded-as-one-unit" % case["form"], {"text": text, "span": [a, b], "payload": p, "nodes": info})
@@ -222,6 +226,8 @@ def check_psbytes(case) -> Outcome:
         root = guarded(8.0, scanner().scan, text, 1)
     except CaseTimeout:
         return o.exclude("slow-scan")
+    except Exception as e:
+        return o.exclude("scan-raised:" + type(e).__name__ + " (C01's business)")
     if n < 501:
         bad = [x for x, _, _ in walk_iter(root) if x.type == "powershell.bytes"]
         if bad:
@@ -366,6 +372,8 @@ def check_hexrun(case) -> Outcome:
         root = guarded(5.0, scanner().scan, text, 1)
     except CaseTimeout:
         return o.exclude("slow-scan")
+    except Exception as e:
+        return o.exclude("scan-raised:" + type(e).__name__ + " (C01's business)")
     if len(p) < 10:
         bad = [n for n, _, _ in walk_iter(root) if n.obfuscation == "decoded.hexadecimal"]
         if bad:
